@@ -325,6 +325,11 @@ def check_history(ctx, hist, mode):
                 break
             if "error" in got:
                 raise Violation("run-failed", hist, f"run #{ri} {run} ({mode}) failed: {got['error']}")
+            if set(got) ^ set(exp) == {"ph"}:
+                # ph is imported by the typechecker module, which is imported when the first hooked function is decorated
+                raise Violation("stale-instrumentation", hist,
+                                f"run #{ri} of {hist['runs']} ({mode}): the typechecker module {'was' if 'ph' in got else 'was NOT'} imported (its helper module ph is "
+                                f"{'loaded' if 'ph' in got else 'missing'}), but this run's configuration {'decorates no' if 'ph' not in exp else 'decorates a'} function with it")
             if set(got) != set(exp):
                 raise HarnessError(f"loaded modules {sorted(got)} vs model {sorted(exp)} in run {run}")
             for m, (st_, ver) in exp.items():
